@@ -104,7 +104,7 @@ SPECS = {
                      "Welcome recipients equal the init keys of the added key packages; one evaluation = one outsider delivery or one commit "
                      "judged offline; distinct = distinct (message kind, epoch distance) cells + distinct commits"),
     "C07": dict(shards=(16, 32), level="exploration",
-                floors={"quick": {"joiner_ops_checked:welcome": 150, "joiner_ops_checked:external_commit": 10,
+                floors={"quick": {"joined_with_last_resort_key_package": 50, "joiner_ops_checked:welcome": 150, "joiner_ops_checked:external_commit": 10,
                                   "key_package_consumption_checked": 150, "negative:welcome_reused_after_write": 150,
                                   "negative:welcome_with_tree_of_other_epoch": 100, "negative:external_commit_from_stale_group_info": 100,
                                   "agree_checked:joiner": 150, "rejoin_same_storage_probed": 10}},
